@@ -93,7 +93,7 @@ New ==
                  pp == Parse(e.fen)
              IN /\ Report(
                      F(cls # "MustReject", "C17", "malformed FEN was imported", [fen |-> Str(e.fen), as |-> FenLine(op)])
-                     \cup (IF cls = "MustAccept"
+                     \cup (IF cls = "MustAccept" \/ ImportJudged(e.fen)     \* accepted although it could have been refused: still the described position
                            THEN F(op.board = pp.board /\ op.stm = pp.stm /\ op.cast = pp.cast
                                   /\ op.ep \in {pp.ep, Normalize(pp).ep},
                                   "C17", "well-formed FEN imported as a different position",
@@ -108,7 +108,7 @@ New ==
                                               extra |-> ToSet(e.lg) \ LegalTexts(Normalize(pp))])
                                       ELSE {})
                                 \cup F("lgpanic" \notin DOMAIN e, "C17", "move generation panicked on an imported well-formed FEN", [fen |-> Str(e.fen)])
-                                \cup (IF op = pp THEN EngDrift([e |-> Eng!Load(pp), u |-> << >>, ok |-> TRUE], e.o, "import") ELSE {})
+                                \cup (IF op = pp /\ cls = "MustAccept" THEN EngDrift([e |-> Eng!Load(pp), u |-> << >>, ok |-> TRUE], e.o, "import") ELSE {})
                            ELSE {}))
                 /\ pos' = op /\ prev' = e.o
                 /\ eng' = IF cls = "MustAccept" /\ op = pp THEN [e |-> Eng!Load(pp), u |-> << >>, ok |-> TRUE] ELSE NoEng
